@@ -149,3 +149,17 @@ pub fn clear_faults() {
         r.closure_fault = None;
     })
 }
+
+/// Run `f` without leaving a trace in the accounting (scratch worlds used to forge handles).
+pub fn scoped<R>(f: impl FnOnce() -> R) -> R {
+    let (nd, nc, zl, zd, zc) = with(|r| (r.drops.len(), r.clones.len(), r.z_live, r.z_drops, r.z_clones));
+    let out = f();
+    with(|r| {
+        r.drops.truncate(nd);
+        r.clones.truncate(nc);
+        r.z_live = zl;
+        r.z_drops = zd;
+        r.z_clones = zc;
+    });
+    out
+}
